@@ -16,6 +16,12 @@ fn check_numbers(o: &mut Outcome, l: &Lowered, run: &crate::exec::Run, tag: &str
     let (v, a) = accepted(l, run);
     let p = match parse(&run.out) {
         Ok(p) => p,
+        Err(e) if e.starts_with("counts: stts") || e.starts_with("counts: ctts") => {
+            // the timing table does not describe every sample: the declared durations cannot match the tables
+            let which = &e[8..12];
+            o.fail("tables", format!("tables.{}_coverage{}", which, tag), format!("{} (the durations declared in mdhd/tkhd/mvhd cannot be consistent with such a table)", e));
+            return;
+        }
         Err(_) => {
             o.class("unparseable_not_judged(C02)");
             return;
@@ -35,6 +41,7 @@ fn check_numbers(o: &mut Outcome, l: &Lowered, run: &crate::exec::Run, tag: &str
         }
         let n = exp.len();
         let mut total: u128 = 0;
+        let any_tie = exp.iter().any(|e| e.tie);
         for i in 0..n {
             let want_d: u128 = if i + 1 < n {
                 (exp[i + 1].dts - exp[i].dts) as u128
@@ -43,7 +50,7 @@ fn check_numbers(o: &mut Outcome, l: &Lowered, run: &crate::exec::Run, tag: &str
             } else {
                 t.samples[i].duration as u128 // lone sample: unknowable, take the file's
             };
-            if exp.iter().any(|e| e.tie) {
+            if any_tie {
                 o.unconstrained.push("half_tick_tie".into());
                 return;
             }
@@ -63,6 +70,12 @@ fn check_numbers(o: &mut Outcome, l: &Lowered, run: &crate::exec::Run, tag: &str
             }
             if t.samples[i].size as usize != exp[i].bytes.len() {
                 o.fail("stsz", format!("stsz.size.{}", tag), format!("{} sample {} size {} but {} bytes stored", name, i, t.samples[i].size, exp[i].bytes.len()));
+                return;
+            }
+            // chunk offsets: the position derived from stco/stsc/stsz must be where the sample's bytes are
+            let off = t.samples[i].offset as usize;
+            if off.checked_add(exp[i].bytes.len()).map(|e| e > run.out.len()).unwrap_or(true) || run.out[off..off + exp[i].bytes.len()] != exp[i].bytes[..] {
+                o.fail("stco", format!("stco.offset.{}{}", name, tag), format!("{} sample {}: chunk offset tables give position {} but its bytes are not there", name, i, off));
                 return;
             }
         }
@@ -116,7 +129,7 @@ pub fn eval_timeline(c: &ValidCase) -> Outcome {
     let total_a: u128 = if a.len() >= 2 { (a[a.len() - 1].dts - a[0].dts) as u128 + (a[a.len() - 1].dts - a[a.len() - 2].dts) as u128 } else { 0 };
     let max_cts = v.iter().map(|s| (s.pts as i128 - s.dts as i128).unsigned_abs()).max().unwrap_or(0);
     let near = |x: u128, lim: u128| x + 2 >= lim && x <= lim + 2;
-    o.nontrivial = near(total_v, 1 << 32) || near(total_a, 1 << 32) || near(max_cts, 1 << 31) || total_a > total_v;
+    o.nontrivial = near(total_v, 1 << 32) || near(total_a, 1 << 32) || near(max_cts, 1 << 31) || total_a > total_v || v.len() + a.len() > 1024;
     if total_v > u32::MAX as u128 || total_a > u32::MAX as u128 {
         o.class("total_duration_beyond_u32");
     }
@@ -565,13 +578,14 @@ pub fn def() -> PropertyDef {
                (few frames with gaps up to 2^32-1), |pts-dts| around 2^31, audio longer than video, parameter-set length / width / height / sample rate \
                around 2^16, channels around 2^8 and 2^16, fragmented DTS gaps around 2^32 and composition offsets around 2^31, timestamps of 2^50..2^200 \
                ticks; oracle: either some call returned an error and the value really does not fit, or every field read back with its declared width \
-               equals the exact value recomputed from the history. Non-trivial = exact value within +-2 (or beyond) a field limit",
+               equals the exact value recomputed from the history. Non-trivial = exact value within +-2 (or beyond) a field limit, or a recording of more than 1 024 samples (long_recordings: counts beyond 2^10..2^20)",
         assumptions: &[
             "NOT explored: the 4 GiB limits (box size, mdat size, chunk offset > u32) - they need > 4 GiB of sample data per case",
             "progressive tkhd width/height are judged by C19 through its shifted decoder (listed finding), here only the sample entry",
         ],
         subs: vec![
             Box::new(PSub { name: "durations_and_offsets", quick: 20000, thorough: 600000, strat: timeline_strategy, eval: eval_timeline }),
+            Box::new(LSub { name: "long_recordings", cases: long_cases_all, eval: eval_timeline, note: LONG_NOTE }),
             Box::new(PSub { name: "fields_around_2^16", quick: 6000, thorough: 150000, strat: fields_strategy, eval: eval_fields }),
             Box::new(PSub { name: "fragmented_boundaries", quick: 12000, thorough: 300000, strat: fragnum_strategy, eval: eval_fragnum }),
             Box::new(PSub { name: "huge_timestamps", quick: 4000, thorough: 80000, strat: huge_strategy, eval: eval_huge }),
